@@ -186,7 +186,10 @@ def _is_group(tag):
 
 
 def _opacity(el: etree.Element) -> float:
-    return _clamp(float(el.attrib.get("opacity", 1.0)))
+    opacity = float(el.attrib.get("opacity", 1.0))
+    if opacity != opacity:  # float() accepts "nan", which no comparison can place in [0, 1]
+        raise ValueError(f"Invalid opacity {el.attrib['opacity']!r}")
+    return _clamp(opacity)
 
 
 def _is_redundant(tag):
